@@ -509,6 +509,19 @@ async fn recv_task(
                         outcome = RecvOutcome::Eof;
                         break;
                     }
+                    Ok(len) if len > buf.len() => {
+                        // AsyncRead contract broken: more bytes reported than the buffer holds
+                        // (the surplus is lost to the application)
+                        check(read, &buf[..], &app);
+                        {
+                            let mut a = app.lock().unwrap();
+                            let o = a.recvs.get_mut(&key).unwrap();
+                            if o.mismatch.is_none() {
+                                o.mismatch = Some((read + buf.len() as u64, format!("read() into a {} byte buffer reported {len} bytes: {} bytes were dropped", buf.len(), len - buf.len())));
+                            }
+                        }
+                        read += len as u64;
+                    }
                     Ok(len) => {
                         check(read, &buf[..len], &app);
                         read += len as u64;
